@@ -753,7 +753,7 @@ func (c08) Exec(c *core.Case) (out *core.Outcome) {
 			}
 			// ... and HEAD ?partNumber=n of a key that holds no object must not describe a part of an upload
 			// that is still in progress
-			if objects[u.Key] == nil && len(o.Violations) == 0 {
+			if objects[u.Key] == nil {
 				hq := s3c.HeadObject(bkt, u.Key)
 				hq.Query = append(hq.Query, KV{K: "partNumber", V: fmt.Sprint(n)})
 				if hp := e.Root().Do(hq); hp.Resp.OK() {
